@@ -30,6 +30,8 @@ TEXT = {
          "Coq proof (invariant by induction over operation histories) + differential correspondence"),
  "C17": ("Theorems for every sequence of the five memory operations on a new memory with any number of slots (including zero): no panic, well-formedness preserved (induction over the operation list); each operation is characterised exactly on the free list and the slot map (provision hands back the same buffer iff full or too small; new_pdu fails iff no buffer is free; new_frag steals the slot's buffer or takes a free one; take_frag returns the saved context iff its frag id matches and otherwise leaves the memory unchanged; save_frag into an occupied slot is refused); take-after-save returns exactly what was saved. Buffers are values moved as a whole, so contents cannot change. Correspondence: exhaustive operation sequences to depth 4/5 plus random sequences, state observed after every operation; a Python bag-plus-slots contract is evaluated on the implementation.",
          "Coq proof (characterisation of each operation + induction over operation sequences) + exhaustive bounded-depth correspondence"),
+ "C05": ("Theorems: from every state reachable through the public API (any history of decap / provision / new_pdu / reset calls on a memory with any number of slots, induction over the call list) and for every byte buffer, decap returns Ok or Err (the model's explicit Panic outcome and fuel exhaustion of the extension walker are proved unreachable), the state stays well formed, consumed <= buffer length, and consumed >= min(2, length) for non-empty buffers; the peek function is total. Proved from decap_spec: the statement-by-statement model equals the closed form decap_hl. Correspondence: DEC family plus all 0..2-byte buffers and every header word with adversarial tails.",
+         "Coq proof (closed form of decap by symbolic execution; invariant by induction over call histories; walker termination by a decreasing measure) + differential correspondence"),
 }
 
 def main():
